@@ -183,6 +183,36 @@ theorem ownMask_input (p : Prog) (l : List ℕ) (α : ℕ → List Rat) (hok : l
     unfold featMask
     rw [if_pos hfr, h2, hw]
 
+/-- the class of an excluded convolution / linear layer is frozen and has that layer's width -/
+theorem ownMask_fixed (p : Prog) (l : List ℕ) (α : ℕ → List Rat) (hok : labelsOK p l = true)
+    (hsb : srcsBefore p) (n s c : ℕ) (a : LAttr) (i : Bool) (hn : n < p.length)
+    (hop : p[n] = .fixed s c a i) : ownMask p l α n = List.replicate c true := by
+  unfold labelsOK at hok
+  simp only [Bool.and_eq_true, List.all_eq_true] at hok
+  have h2 := hok.2 n (List.mem_range.mpr hn)
+  rw [getOp_eq p n hn, hop] at h2
+  simp only [Op.defining, Bool.not_true, Bool.false_or] at h2
+  have hw : (widths p).getD n 0 = c := by rw [width_eq p hsb n hn, hop]; rfl
+  unfold ownMask
+  cases hg : groupOf p l (l.getD n 0) with
+  | none => rw [hg] at h2; cases h2
+  | some g =>
+    rw [hg] at h2
+    simp only [beq_iff_eq] at h2
+    have hfr : g.frozen = true := by
+      unfold groupOf at hg
+      simp only at hg
+      split at hg
+      · cases hg
+      · cases hg
+        simp only [List.any_eq_true]
+        refine ⟨n, ?_, ?_⟩
+        · unfold members; rw [List.mem_filter]; exact ⟨List.mem_range.mpr hn, by simp⟩
+        · rw [getOp_eq p n hn, hop]; simp [Op.excluded]
+    simp only
+    unfold featMask
+    rw [if_pos hfr, h2, hw]
+
 /-! ### features that reach an excluded layer or a network output are never pruned -/
 
 theorem reach_closed (p : Prog) (l : List ℕ) (hok : labelsOK p l = true) (u t : ℕ) (hu : u < p.length)
@@ -348,7 +378,7 @@ theorem tcat_arity (p : Prog) (h : wellShaped p = true) (n : ℕ) (hn : n < p.le
 /-- **sharing invariant**: the alive mask of every untainted node is the mask of the masker of
 its sharing component -/
 theorem untainted_mask (p : Prog) (l : List ℕ) (α : ℕ → List Rat) (hok : labelsOK p l = true)
-    (hws : wellShaped p = true) (hne : noExcluded p = true) :
+    (hws : wellShaped p = true) :
     ∀ n (hn : n < p.length), (tainted p).getD n false = false →
       (aliveMasks p l α).getD n [] = ownMask p l α n := by
   have hsb := srcsBefore_of_wellShaped p hws
@@ -358,7 +388,6 @@ theorem untainted_mask (p : Prog) (l : List ℕ) (α : ℕ → List Rat) (hok : 
     intro hn ht
     have hal := alive_eq p l α hsb n hn
     have hta := taint_eq p hsb n hn
-    have hex := noExcluded_at p hne n hn
     rw [hta] at ht
     rw [hal]
     -- a propagating node whose single relevant source is `s`
@@ -374,8 +403,11 @@ theorem untainted_mask (p : Prog) (l : List ℕ) (α : ℕ → List Rat) (hok : 
     | conv s c a => simp only [maskStep]
     | dw s a => simp only [maskStep]
     | lin s c a => simp only [maskStep]
-    | fixed s c a i => rw [hop] at hex; simp [Op.excluded] at hex
-    | fixedDw s a => rw [hop] at hex; simp [Op.excluded] at hex
+    | fixed s c a i => simp only [maskStep]; exact (ownMask_fixed p l α hok hsb n s c a i hn hop).symm
+    | fixedDw s a =>
+      rw [hop] at ht; simp only [taintStep] at ht
+      simp only [maskStep]
+      exact prop s (by rw [hop]; simp [Op.inputs]) (by rw [hop]; rfl) (by rw [hop]; rfl) ht
     | chan s =>
       rw [hop] at ht; simp only [taintStep] at ht
       simp only [maskStep]
@@ -416,20 +448,19 @@ def SemOK (σ : Sem V) (inp : ℕ → List V) (x : Op × ℕ) : Prop :=
   | _ => True
 
 /-- the masks the features calculators report are coherent at every node of a supported,
-well-shaped program without excluded layers whose labelling passes the certificate -/
+well-shaped program (exclusions included) whose labelling passes the certificate -/
 theorem coherent_of_bookkeeping (σ : Sem V) (inp : ℕ → List V) (p : Prog) (l : List ℕ)
     (α : ℕ → List Rat) (hl : computeLabels p = some l) (hws : wellShaped p = true)
-    (hsup : supported p = true) (hne : noExcluded p = true)
+    (hsup : supported p = true)
     (hsem : ∀ n (hn : n < p.length), SemOK σ inp (p[n], n)) :
     ∀ n (hn : n < p.length), Coherent σ (aliveMasks p l α) inp (p[n], n) := by
   have hok := labelsOK_of_compute p l hl
   have hsb := srcsBefore_of_wellShaped p hws
-  have hum := untainted_mask p l α hok hws hne
+  have hum := untainted_mask p l α hok hws
   intro n hn
   have hal := alive_eq p l α hsb n hn
   have hs := hsem n hn
   have hsu := supported_at p hsup n hn
-  have hex := noExcluded_at p hne n hn
   have hin : ∀ s ∈ (p[n]).inputs, s < n := hsb n hn
   have hlab : ∀ s ∈ (p[n]).inputs, (p[n]).defining = false → (p[n]).isCat = false →
       l.getD s 0 = l.getD n 0 := fun s hs hd hc => label_eq_of_edge p l hok n s hn hd hc hs
@@ -454,8 +485,18 @@ theorem coherent_of_bookkeeping (σ : Sem V) (inp : ℕ → List V) (p : Prog) (
     refine ⟨hsn, ?_⟩
     rw [hal, hum s (by omega) hsu]
     exact (ownMask_congr p l α s n (hlab s (by simp [Op.inputs]) rfl rfl)).symm
-  | fixed s c a i => rw [hop] at hex; simp [Op.excluded] at hex
-  | fixedDw s a => rw [hop] at hex; simp [Op.excluded] at hex
+  | fixed s c a i =>
+    have hat := fixed_input_allTrue p l α hok hws n s hn (by rw [hop]; simp [Op.inputs])
+      (Or.inl (by rw [hop]; rfl))
+    rw [hop] at hin hal
+    simp only [maskStep] at hal
+    exact ⟨hin s (by simp [Op.inputs]), hal, hat⟩
+  | fixedDw s a =>
+    have hat := fixed_input_allTrue p l α hok hws n s hn (by rw [hop]; simp [Op.inputs])
+      (Or.inl (by rw [hop]; rfl))
+    rw [hop] at hin hal
+    simp only [maskStep] at hal
+    exact ⟨hin s (by simp [Op.inputs]), hal, hat⟩
   | chan s =>
     rw [hop] at hs hin hal; simp only [SemOK] at hs
     simp only [maskStep] at hal
